@@ -235,13 +235,14 @@ class StepRig:
         return it
 
     def until(self, pred: Callable[[], bool], pump: Iterable[Peer] = (), idle_timeout: float = 1.0,
-              max_iter: int = 5000000) -> bool:
+              max_iter: int = 5000000, max_stall: float = 8.0) -> bool:
         """Iterate (draining `pump`) until pred() holds.  Gives up only after `idle_timeout` seconds of
         wall-clock time during which neither the proxy nor the peers moved a byte, so a late loopback
         delivery is never mistaken for loss.  Returns pred()'s final value."""
         pump = list(pump)
         idle_since: Optional[float] = None
         it = 0
+        last_peer_byte = time.time()
         try:
             while it < max_iter:
                 moved = 0
@@ -251,6 +252,12 @@ class StepRig:
                     return True
                 self.step()
                 it += 1
+                if moved:
+                    last_peer_byte = time.time()
+                elif it % 256 == 0 and time.time() - last_peer_byte > max_stall:
+                    # the proxy keeps itself busy (socket calls every iteration) but no byte has reached any
+                    # pumped peer for max_stall seconds: pred() is not going to become true
+                    break
                 if moved or self.idle_streak == 0:
                     idle_since = None
                     self.sel.hold = 0.0
